@@ -451,6 +451,27 @@ func (e *Engine) intrinsic(name string, fn *ssa.Function, args []Value) (Value, 
 	case "vOnWait":
 		e.wgHook = args[0].(FuncV)
 		return nil, true
+	case "vBreakSignal": // closes the interrupter channel of a breaker.Breaker (what Break() does before it waits)
+		l := unwrapAny(args[0]).(PtrV).L
+		find := func(l *Loc, name string) *Loc {
+			st := l.typ.Underlying().(*types.Struct)
+			for i := 0; i < st.NumFields(); i++ {
+				if st.Field(i).Name() == name {
+					return l.kids[i]
+				}
+			}
+			panic("field not found: " + name)
+		}
+		cl := find(l, "interrupter").v.(PtrV).L
+		ch := find(cl, "channel").v.(ChanV).C
+		if !ch.closed {
+			ch.closed = true
+			e.tracef("break-signal %s", ch)
+		}
+		return nil, true
+	case "vDecline":
+		e.declined = true
+		return nil, true
 	case "vSleepBudget":
 		e.sleepBudget = e.concreteInt(args[0].(*Term), "vSleepBudget")
 		return nil, true
